@@ -65,3 +65,12 @@ def register(check, not_yet):
           "Assumes plain name loads are effect-free and operator.X(a,b) means 'a X b' per the Python library reference; untouched "
           "statements are equal by AST identity.",
           "SMT (z3, EUF) equivalence queries per rewritten expression + structural rule check", "DESIGN.md section 4 C15", "B:pysym")
+    check("C05", "other",
+          "Bounded symbolic verification under CrossHair on the real collection classes: for every pair of representations "
+          "(vector/list/cons/lazy seq/queue) same elements => = both ways, same hash, interchangeable as map key / set member; "
+          "= iff elements pairwise equal (a boolean never equals a number), symmetric; transitivity on representation triples; "
+          "scalars; maps/sets with symbolic leaves (with the recorded bool-vs-number finding isolated in its own obligation so any "
+          "other map/set violation is still reported).",
+          "Bound: sequences of length <= 2 over {nil,true,false,0,1,2} (hashing realises integers, so the element universe is finite); "
+          "C-level hash functions run concretely.",
+          "CrossHair (z3) symbolic execution of the real equality/hash code", "DESIGN.md section 4 C05", "A:crosshair")
